@@ -423,23 +423,14 @@ Definition ac_split (stride cs : N) (k : N) (s : ChunksSt) : option (ChunksSt * 
         Some (ac_some base mid, ac_some (base + mid * stride) (n - mid))
     end
   else None.
-(* an (unfixed) empty-but-Some remainder yields one empty chunk: next on Some (base, 0) *)
-Fixpoint ac_fold_loop (dims : list dim) (axis : nat) (stride cs : N) (fuel : nat) (s : ChunksSt) : option (list (list N)) :=
-  match fuel with
-  | O => None
-  | S f =>
-      match ac_next dims axis stride cs s with
-      | (None, _) => Some []
-      | (Some x, s') => match ac_fold_loop dims axis stride cs f s' with Some l => Some (x :: l) | None => None end
-      end
-  end.
 Definition ac_iface (orig : bool) (dims : list dim) (axis : nat) (stride cs : N) : iface ChunksSt (list N) := {|
   i_next := ac_next dims axis stride cs;
   i_back := ac_back dims axis stride cs;
   i_nth := fun k s => nth_default (ac_next dims axis stride cs) (S (S (N.to_nat (ac_len cs s)))) k s;
   i_len := ac_len cs;
   i_split := if orig then ac_split_orig stride cs else ac_split stride cs;
-  i_fold := fun s => ac_fold_loop dims axis stride cs (S (S (N.to_nat (ac_len cs s)))) s;
+  (* fold is not overridden; an (unfixed) empty-but-Some remainder yields one extra chunk *)
+  i_fold := fun s => fdrain (ac_next dims axis stride cs) (S (S (N.to_nat (ac_len cs s)))) s;
 |}.
 
 (* ------------------------------------------------------------------ specification items *)
